@@ -50,7 +50,7 @@ func newEngine(prog *ssa.Program, spkgs []*ssa.Package) *Engine {
 	if os.Getenv("GOVC_TRACE") != "" {
 		w = 1
 	}
-	return &Engine{prune: true, workers: w, prog: prog, pkgs: spkgs, loops: map[string]map[int]*LoopAnn{}, heapSorts: map[string]string{}, opaque: map[string]bool{}, contracts: map[string]*Contract{}, ifaceContracts: map[string]*Contract{}, siteOrd: map[ssa.Instruction]int{}}
+	return &Engine{prune: true, workers: w, prog: prog, pkgs: spkgs, loops: map[string]map[int]*LoopAnn{}, heapSorts: map[string]string{}, opaque: map[string]bool{}, contracts: map[string]*Contract{}, ifaceAll: map[string][]*Contract{}, loopsFor: map[string]*LoopAnn{}, siteOrd: map[ssa.Instruction]int{}}
 }
 
 func workerCount() int {
@@ -178,7 +178,7 @@ func (e *Engine) verify2(t *Target) {
 		return
 	}
 	for i, fs := range fins {
-		if i == 0 || tier == "thorough" {
+		if i < 4 || tier == "thorough" {
 			e.cover(fs, "cover.exit")
 		}
 		if c := e.contracts[fn.String()]; c != nil {
